@@ -36,19 +36,22 @@ GOOD = {
     'b_good1': {'eid': 0x50000B01, 'plid': 0x50000B01, 'sections': [{'t': 'PS', 'ascii': 'BD8D1001'.ljust(32), 'callouts': [pelgen.CALLOUT_FULL]},
                                                                    {'t': 'UD', 'comp': 0xABCD, 'payload': '0102030405'}]},
     'd_good2': {'eid': 0x50000D02, 'plid': 0x50000D02, 'uh': {'sev': 0x40, 'flags': 0x6000},
-                'sections': [{'t': 'PS', 'ascii': 'BD8D1002'.ljust(32)}, {'t': 'EH'}, {'t': 'MT'}]},
+                'sections': [{'t': 'PS', 'ascii': 'BD8D1002'.ljust(32)}, {'t': 'EH'}, {'t': 'MT'},
+                             {'t': 'LP', 'name': 'good2', 'targets': [0x0011, 0x0012]}]},
     'f_good3': {'eid': 0x50000F03, 'plid': 0x50000B01, 'uh': {'sev': 0x00, 'flags': 0x0000},
                 'sections': [{'t': 'PS', 'ascii': '11001003'.ljust(32)}]},
     # decoded with the shipped plug-ins (BMC SRC dispatcher -> hardware diagnostics SRC parser, user data parser, callouts)
     'e_good_hw': {'eid': 0x50000E04, 'plid': 0x50000E04, 'creator': 'O', 'sections': [
         {'t': 'PS', 'ascii': 'BD20E510'.ljust(32), 'callouts': [pelgen.CALLOUT_PROC]},
-        {'t': 'UD', 'comp': 0xE500, 'sub': 1, 'ver': 1, 'payload': ((1).to_bytes(4, 'big') + bytes(range(1, 13))).hex()}]},
+        {'t': 'UD', 'comp': 0xE500, 'sub': 1, 'ver': 1, 'payload': ((1).to_bytes(4, 'big') + bytes(range(1, 13))).hex()},
+        {'t': 'LP', 'name': 'hw', 'targets': [0x0021]}]},
 }
 # PELs that go through the same plug-ins and caches as the good ones; cut short they are junk that has been partly decoded
 TWINS = {
     'bc_e5': {'eid': 0x5000AA01, 'plid': 0x5000AA01, 'creator': 'O', 'sections': [
         {'t': 'PS', 'ascii': 'BC70E540'.ljust(32), 'callouts': [pelgen.CALLOUT_PROC]}, {'t': 'UD', 'comp': 0xE500, 'sub': 2, 'payload': '00' * 40},
-        {'t': 'MT'}]},
+        # (what a junk file's sections accumulate while they are decoded must not show up in the good PELs)
+        {'t': 'LP', 'name': 'twin', 'targets': [0x0AAA, 0x0BBB, 0x0CCC]}, {'t': 'MT'}]},
     'bd_e5': {'eid': 0x5000AA02, 'plid': 0x5000AA02, 'creator': 'O', 'sections': [
         {'t': 'PS', 'ascii': 'BD20E520'.ljust(32)}, {'t': 'UD', 'comp': 0xE500, 'sub': 1, 'payload': '0000000300'}, {'t': 'MT'}]},
     'b_e5': {'eid': 0x5000AA03, 'plid': 0x5000AA03, 'creator': 'B', 'sections': [
